@@ -57,8 +57,10 @@ pub fn replay_utf8(s: &mut Summary, v: &V) {
 pub fn record(rng: &mut rand::rngs::SmallRng, n_events: usize, out: &mut dyn std::io::Write) {
     use rand::Rng;
     for k in 0..n_events {
-        let n = rng.gen_range(0..48);
-        let mut b: Vec<u8> = (0..n).map(|_| if rng.gen_range(0..12) == 0 { 0 } else { rng.gen_range(1..=255) }).collect();
+        // rarely: 254..300 bytes whose first nul (if any) sits beyond offset 250 (a scan position kept in a u8 wraps)
+        let long = rng.gen_range(0..40) == 0;
+        let n = if long { [254, 255, 256, 257, 258, 300][rng.gen_range(0..6)] } else { rng.gen_range(0..48) };
+        let mut b: Vec<u8> = (0..n).map(|q| if (!long && rng.gen_range(0..12) == 0) || (long && q > 250 && rng.gen_range(0..6) == 0) { 0 } else { rng.gen_range(1..=255) }).collect();
         if rng.gen_bool(0.5) { b.push(0); }
         if rng.gen_range(0..8) == 0 { b.push(0); }
         let (ev, r) = if k % 2 == 0 {
